@@ -16,6 +16,7 @@ Copy i uses two letters (p, q); the kinds of classes of a copy:
   variant K: as F, but X is not verified by brute force: the pack offered for C verifies X by a strategy that itself offers a
              pack (X = p A, A = eps + p A + q A): a chain of verifications with packs
   variant R: as F with bD = q q X: a product with a repeated child class (T, T, X)
+  variant Z: as Y, but the pack offered for C keeps its strategies in an expansion set (verification strategies first in pack order)
   variant S: C = (p|q)+ = X + swap(X): a union rule with the *same* child class twice, told apart by the child index only
 Root R = g + C1 + ... + Ck  (`g` a one-letter atom). Everything the oracle needs is generated directly from these
 definitions (`words`), independently of the library. The classes duck-type upword.PW for the shared helpers
@@ -62,7 +63,7 @@ def _words(name, n, sig):
     if kind == "X":
         return [p + t for t in _tails(p, q, n - 1)] if n >= 1 else []
     if kind == "D":
-        lo = 2 if v == "Y" else 1
+        lo = 2 if v in ("Y", "Z") else 1
         return [p + t for t in _tails(p, q, n - 1)] if n >= lo else []
     if kind == "bD":
         if v == "R":
@@ -365,7 +366,7 @@ def inner_pack(sig):
             prod["Pq" + k] = ("Aq" + k, "Ps" + k)
             continue
         union["C" + k] = ("X" + k, "bD" + k)
-        if v == "Y":
+        if v in ("Y", "Z"):
             union["X" + k] = ("D" + k, "Y" + k)
             prod["bD" + k] = ("T" + k, "D" + k)
         elif v == "E":
@@ -375,6 +376,11 @@ def inner_pack(sig):
             prod["bD" + k] = ("T" + k, "T" + k, "X" + k)
         else:
             prod["bD" + k] = ("T" + k, "X" + k)
+    if "Z" in sig:
+        # variant Z: as Y, with the strategies of the pack in an expansion set - the verification strategies then come *before* them
+        # in the order of the pack (the order in which a rule is looked for when the pack is replayed)
+        return StrategyPack(initial_strats=[], inferral_strats=[], expansion_strats=[[GUnion(union), GProd(prod), GSym(sym), GPoint(point)]],
+                            ver_strats=[AtomStrategy()] + ([GPackVer2(["X"])] if "K" in sig else []) + [GBrute(["X", "Pq", "Ps", "A"])], name="inner")
     if "K" in sig:
         return StrategyPack(initial_strats=[GUnion(union), GProd(prod), GSym(sym), GPoint(point)], inferral_strats=[], expansion_strats=[],
                             ver_strats=[AtomStrategy(), GPackVer2(["X"]), GBrute(["X", "Pq", "Ps", "A"])], name="inner")
